@@ -17,7 +17,8 @@ META = {
         'the matching operator, _cmp_op = unit check then operator on values.  Because every body '
         'is literally the expression the property equates it with, conformance implies the '
         'property for all operands (including the exception raised), modulo operator dispatch.  '
-        'Identity shortcuts (`if other is self`) in comparisons are violations (NaN); witness operands include 2**53+1 so that float() detours on int values show.'),
+        'Identity shortcuts (`if other is self`) in comparisons are violations (NaN); witness operands include 2**53+1 so that float() detours on int values show.'
+        " Also: the unit test of _cmp_op, whatever its spelling, has the decision table of `the units differ` over the units None, '', 'kg', 'm'."),
     'rule_text': 'one obligation per required dunder method of Qty + _cmp_op paths + class-structure facts; '
                  'discharged by normal-form equality; distinct = distinct (rule, obligation) pairs',
     'trusted_base': ['Python data model dispatch of binary/reflected/unary operators and rich comparisons'],
@@ -230,6 +231,43 @@ def _replace(nf, a, b):
     return nf
 
 
+UNIT_DOMAIN = (None, '', 'kg', 'm')
+
+
+def _unit_predicate(ctx, fn, text, s, o, rule='C20.D1'):
+    """A condition of _cmp_op that reads only the two units: its decision table over the representative units
+    None / '' / two different names must be that of `units differ`."""
+    import ast as _ast
+    from .. import minieval
+    try:
+        e = _ast.parse(text, mode='eval').body
+    except SyntaxError:
+        return None
+    reads = {norm(n) for n in _ast.walk(e) if isinstance(n, _ast.Attribute)}
+    names = {n.id for n in _ast.walk(e) if isinstance(n, _ast.Name)} - {'None', 'True', 'False', 'bool', 'str', 'len'}
+    if not reads or not reads <= {'%s.unit' % s, '%s.unit' % o} or not names <= {s, o}:
+        return None
+    try:
+        tab = minieval.table(e, (s, o), UNIT_DOMAIN, build=lambda c: {s: {'unit': c[0]}, o: {'unit': c[1]}})
+    except minieval.Undecided:
+        return None
+    bad = [(c, v) for c, v in tab if bool(v) != (c[0] != c[1])]
+    if not bad:
+        return 'differ'
+    (a, b), v = bad[0]
+    if a != b:
+        wit = 'Quantity(5, %r) == Quantity(5, %r) answers True (and < / > answer too) instead of raising TypeError: the ' \
+              'units differ but `%s` is false for them' % (a, b, text)
+        if {a, b} == {None, ''}:
+            wit += "; the two quantities then compare equal while hash() still tells them apart (it hashes the raw unit)"
+    else:
+        wit = 'Quantity(1, %r) < Quantity(2, %r) raises TypeError although the units are the same: `%s` is true for them' % (a, b, text)
+    ctx.violation(rule, '%s::Qty._cmp_op' % F, text, wit,
+                  'the unit test of _cmp_op is not `the units differ` over the units None, \'\', \'kg\', \'m\' (%d of %d pairs decided '
+                  'differently)' % (len(bad), len(tab)), file=F, line=fn.lineno, engine='E7')
+    return 'violation'
+
+
 def _cmp_op(ctx, methods):
     if '_cmp_op' not in methods:
         ctx.error('C20.D1', 'anchor vanished: Qty._cmp_op')
@@ -267,6 +305,12 @@ def _cmp_op(ctx, methods):
                                   "and None all to '')" % mo.group(1),
                                   'Qty._cmp_op compares units through %s(), a many-to-one mapping, so differing units can pass the '
                                   'unit check' % mo.group(1), file=F, line=fn.lineno, engine='E9')
+                    return
+                verdict = _unit_predicate(ctx, fn, text, s, o)
+                if verdict == 'differ':
+                    cs.append(('differ', pos))
+                    continue
+                if verdict == 'violation':
                     return
                 problems.append('unrecognised condition %r' % text)
         got.add((tuple(cs), kind, val))
